@@ -40,7 +40,8 @@ RULE = (
 KINDS = ("msg1", "msg2", "parse", "reader")
 # operations whose observation must equal the reference of ANOTHER kind: the message a reader
 # hands out after the same reader has reported an error is the message the static parser gives
-EQUIV = {"reader-after-error": "parse", "reader-after-filler": "parse", "reader-rebound": "parse"}
+EQUIV = {"reader-after-error": "parse", "reader-after-filler": "parse", "reader-rebound": "parse",
+         "reader-after-collision": "parse"}
 
 
 def snapshot():
@@ -102,6 +103,21 @@ def observe(payload, kind):
                 return ("exc", "NoMessage", 0)
             if msg is None:
                 return ("exc", "NoMessage", 0)
+        elif kind == "reader-after-collision":
+            # the same reader has just read ANOTHER valid frame of the same length that carries the
+            # same CRC trailer (a multiple of the generator XOR-ed into the last payload bytes)
+            frame = pinned.frame(payload)
+            if len(payload) < 6:
+                msg = RTCMReader.parse(frame)
+            else:
+                twin = payload[:-4] + (int.from_bytes(payload[-4:], "big") ^ 0x1864CFB).to_bytes(4, "big")
+                tframe = pinned.frame(twin)
+                core.require(tframe[-3:] == frame[-3:] and tframe != frame, "collision twin")
+                rdr = RTCMReader(io.BytesIO(tframe + frame), quitonerror=0)
+                rdr.read()
+                _raw, msg = rdr.read()
+                if msg is None:
+                    msg = RTCMReader.parse(frame)
         elif kind == "reader-rebound":
             # two readers, one after the other, over the SAME stream object (the first is dropped)
             frame = pinned.frame(payload)
@@ -601,6 +617,7 @@ def run(tier, seed, t0):
         cases_.append({"kind": "hist", "history": [(it["payload"], "reader-after-error")], "snap_each": True})
         cases_.append({"kind": "hist", "history": [(it["payload"], "reader-after-filler")], "snap_each": True})
         cases_.append({"kind": "hist", "history": [(it["payload"], "reader-rebound")], "snap_each": True})
+        cases_.append({"kind": "hist", "history": [(it["payload"], "reader-after-collision")], "snap_each": True})
     for a, b in itertools.product(conflict, repeat=2):
         for ka, kb in itertools.product(KINDS + ("reader-after-error",), repeat=2):
             if (ka, kb) != ("msg1", "msg1"):
